@@ -12,7 +12,6 @@ in the templates of `remove_matching_interaction`.
 Vocabulary:
 * `Mol.EaOk m`   : every entry of the bond attribute table belongs to an existing bond;
 * `Mol.InvE m`   : `Mol.Inv m ∧ Mol.EaOk m`, the extended invariant; `PoolInvE`;
-* `Op.safe p op` : false only for `clear` of a molecule that has an interaction with an atom;
 * `Op.blockOk op`: the block argument of `fromBlock` / `buildBlock` has `Block.EaOk`;
 * `Mol.LogOk m`  : every format map of every log entry mentions atoms of `m` only (NOT invariant);
 * `pathPair atoms a b` : `{a, b}` are consecutive atoms of the interaction.
@@ -39,19 +38,13 @@ example : exA.InvE ∧ exB.InvE := by decide
 example : exBadE.Inv ∧ ¬ exBadE.EaOk := by decide
 
 /-- EVERY operation of the enlarged set (with every argument, succeeding or failing) preserves the
-extended invariant, except `clear` of a molecule with interactions (`Op.safe`) -/
-theorem inve_step (p : Pool) (op : Op) (h : PoolInvE p) (hs : op.safe p = true) (hb : op.blockOk = true) :
+extended invariant (`blockOk`: a block handed to fromBlock / buildBlock is itself consistent) -/
+theorem inve_step (p : Pool) (op : Op) (h : PoolInvE p) (hb : op.blockOk = true) :
     PoolInvE (step p op).1 :=
-  step_inve h op hs hb
+  step_inve h op hb
 
-theorem inve_reachable (ops : List Op) (hs : SafeRun [] ops = true) (hb : ∀ op ∈ ops, op.blockOk = true) :
-    PoolInvE (run [] ops) :=
-  run_inve (fun m hm => by cases hm) ops hs hb
-
-/-- a history without `clear` is safe from every pool -/
-theorem safe_run_of_no_clear (p : Pool) (ops : List Op) (h : ∀ op ∈ ops, op.isClear = false) :
-    SafeRun p ops = true :=
-  safeRun_of_no_clear p ops h
+theorem inve_reachable (ops : List Op) (hb : ∀ op ∈ ops, op.blockOk = true) : PoolInvE (run [] ops) :=
+  run_inve (fun m hm => by cases hm) ops hb
 
 /-- a history over the new operations: bond attributes, bond removal, bonds from interactions,
 bulk node addition with common attributes, log entries, a block built with `add_atom` -/
@@ -65,33 +58,36 @@ def exHistoryE : List Op :=
    .buildBlock { nrexcl := some 1, ff := some "ffA" }
      [.addAtom { name := some "N" }, .addAtom { name := some "CA", resid := some 2 }, .addEdge "N" "CA" { order := some 2 },
       .addInter { ty := "bonds", atoms := ["N", "CA"], params := "p" }, .log 30 "block note"] 1 0 0,
-   .merge 0 1, .removeEdges 0 [(4, 5), (9, 9)], .copy 0, .clear 2]
+   .merge 0 1, .removeEdges 0 [(4, 5), (9, 9)], .copy 0, .clear 2, .merge 0 0]
 
-example : SafeRun [] exHistoryE = false := by decide
-example : SafeRun [] exHistoryE.dropLast = true := by decide
 example : ∀ op ∈ exHistoryE, op.blockOk = true := by decide
-example : PoolInvE (run [] exHistoryE.dropLast) := by decide
-example : ((run [] exHistoryE.dropLast)[0]?.map (fun m => (m.keys, m.edges, m.eattr))) =
-    some ([1, 2, 3, 4, 5], [(2, 3), (1, 2)], [((1, 2), ({} : EAttrs))]) := by decide
-example : ¬ PoolInv (run [] exHistoryE) := by decide
+example : PoolInvE (run [] exHistoryE) := by decide
+example : ((run [] exHistoryE)[0]?.map (fun m => (m.keys, m.edges, m.eattr))) =
+    some ([1, 2, 3, 4, 5, 6, 7, 8, 9, 10], [(2, 3), (1, 2), (7, 8), (6, 7)],
+          [((1, 2), ({} : EAttrs)), ((6, 7), ({} : EAttrs))]) := by decide
+example : ((run [] exHistoryE)[2]?.map (fun m => (m.keys, m.inters.length, m.logs.length))) = some ([], 0, 2) := by decide
 
-/-! ## 2. `Molecule.clear()` (finding F-C12-4) -/
+/-! ## 2. `Molecule.clear()` (F-C12-4, repaired in f707daa) -/
 
-/-- what `clear` does: atoms, bonds and bond attributes go; the interactions (and citations, nrexcl,
-force field, log entries) stay -/
+/-- what `clear` does: atoms, bonds, bond attributes AND interactions go; citations, nrexcl, force
+field and log entries stay; the result satisfies the extended invariant whatever the molecule was -/
 theorem clear_spec (m : Mol) :
-    m.clear.nodes = [] ∧ m.clear.edges = [] ∧ m.clear.eattr = [] ∧ m.clear.inters = m.inters ∧
+    m.clear.nodes = [] ∧ m.clear.edges = [] ∧ m.clear.eattr = [] ∧ m.clear.inters = [] ∧
     m.clear.cites = m.cites ∧ m.clear.nrexcl = m.nrexcl ∧ m.clear.ff = m.ff ∧ m.clear.logs = m.logs ∧
-    (m.clear.Inv ↔ ∀ ti ∈ m.inters, ti.2.atoms = []) :=
-  ⟨rfl, rfl, rfl, rfl, rfl, rfl, rfl, rfl, clear_inv_iff m⟩
+    m.clear.InvE :=
+  ⟨rfl, rfl, rfl, rfl, rfl, rfl, rfl, rfl, clear_inv m, clear_ea m⟩
 
-/-- the first clause of C12 is FALSE for `clear`: from a molecule that satisfies the invariant it
-leads to one whose two interactions mention atoms that are not present (replayed on the real code
-by corpus/c12_hard.json, history `clear`) -/
-theorem clear_dangling_witness :
-    exA.Inv ∧ ¬ exA.clear.Inv ∧ exA.clear.keys = [] ∧
-    exA.clear.inters.map (fun ti => ti.2.atoms) = [[1, 2], [1, 2, 5]] ∧
-    (step [exA] (.clear 0)).2 = .ok ∧ Op.safe [exA] (.clear 0) = false := by
+example : exA.clear.inters = [] ∧ exA.clear.Inv ∧ (step [exA] (.clear 0)).2 = .ok := by decide
+
+/-- the behaviour BEFORE the repair (`nx.Graph.clear()` + cache reset only): the interactions stayed -/
+def Mol.clearOld (m : Mol) : Mol := { m with nodes := [], edges := [], eattr := [], maxNode := none }
+
+/-- why it was a finding: from a molecule that satisfies the invariant the old `clear` led to one
+whose two interactions mention atoms that are not present (corpus/c12_ext.json, first history, is
+the same input and must now pass) -/
+theorem clear_old_dangling_witness :
+    exA.Inv ∧ ¬ exA.clearOld.Inv ∧ exA.clearOld.keys = [] ∧
+    exA.clearOld.inters.map (fun ti => ti.2.atoms) = [[1, 2], [1, 2, 5]] := by
   decide
 
 /-! ## 3. Bonds: attributes, removal, bonds derived from interactions -/
@@ -310,7 +306,7 @@ theorem log_entries_renumbered (self other : Mol) (hs : self.Inv) (ho : other.In
     fun hsl => mergeResult_logOk ho.1 hsl hol _ _ _ _⟩
 
 /-- with such log entries a merge is all-or-nothing and never raises KeyError (see `merge_outcome`);
-without, it is not (finding F-C12-6): the newcomer's entry mentions atom 2, which was removed; the
+without, it is not (observation F-C12-6, outside the text of C12): the newcomer's entry mentions atom 2, which was removed; the
 merge raises KeyError AFTER it has added the newcomer's atom and interaction -/
 def exLogDangling : Mol :=
   { nodes := [(1, { name := some "A" })], inters := [("bonds", { atoms := [1], params := "p" })], nrexcl := some 1,
@@ -365,53 +361,54 @@ theorem to_molecule_bookkeeping (b : Block) (atomOff residOff cgOff : Int) (m : 
   intro hb
   exact ⟨toMolecule_inv' b _ _ _ _ h, toMolecule_ea b hb _ _ _ _ h⟩
 
-/-! ## 6. A molecule merged into itself (finding F-C12-5) -/
+/-! ## 6. A molecule merged into itself (F-C12-5, repaired in 941d2d8) -/
 
-/-- **self_merge_spec.**  What `m.merge_molecule(m)` does to a molecule that satisfies the invariant:
-* no atom, or one atom and no interaction: the normal merge of `m` with (a snapshot of) itself —
-  the merge theorems of section 6 apply with `other = self`, every clause of the property holds;
-* two or more atoms: RuntimeError; ONE atom has been added, under the fresh key `offset + 1`, a
-  copy of the FIRST atom shifted like a merged atom; nothing else;
-* one atom `k` and interactions: KeyError; the atom has been duplicated under `k + 1` and the
-  interactions of the first interaction's type have been duplicated onto it; nothing else.
-In the last two cases "fresh keys" and "uniform shift" hold for what was added and nothing of
-`self` is lost, but "keeps every atom, bond and interaction of both operands" fails, and the
-operation has raised.  The invariant survives in every case. -/
-theorem self_merge_spec (m : Mol) (h : m.Inv) :
-    ((m.nodes = [] ∨ (∃ first, m.nodes = [first]) ∧ m.inters = []) → m.selfMerge = m.merge m) ∧
-    (∀ first second rest, m.nodes = first :: second :: rest →
-      m.selfMerge =
-        ({ m with nodes := m.nodes ++ [(m.offset + 1, first.2.shift m.shiftBy.1 m.shiftBy.2)], maxNode := none },
-         .runtimeerror)) ∧
-    (∀ first ty i rest, m.nodes = [first] → m.inters = (ty, i) :: rest →
-      m.selfMerge =
-        ({ m with nodes := m.nodes ++ [(m.offset + 1, first.2.shift m.shiftBy.1 m.shiftBy.2)],
-                  inters := m.inters ++ (m.inters.filter (fun ti => ti.1 == ty)).map
-                    (fun ti => (ti.1, { ti.2 with atoms := ti.2.atoms.map (fun _ => m.offset + 1) })),
-                  maxNode := some (m.offset + 1) }, .keyerror)) ∧
-    m.offset + 1 ∉ m.keys ∧ m.selfMerge.1.Inv ∧ (m.EaOk → m.selfMerge.1.EaOk) :=
-  ⟨selfMerge_normal, fun f s r hn => selfMerge_two h f s r hn,
-   fun f ty i r hn hi => selfMerge_one_inters h f ty i r hn hi,
-   fun hx => by have := offset_ge (self := m) _ hx; omega,
-   selfMerge_inv h, selfMerge_ea h⟩
+/-- **self_merge_all_clauses.**  `m.merge_molecule(m)` merges `m` with a snapshot of itself taken at
+call time (`mergeOperand`, `Mol.copy`).  For a molecule that satisfies the extended invariant and
+whose log entries are intact, EVERY clause of the property holds for the self-merge: it succeeds;
+every atom of `m` is kept where it was; the duplicate's atoms follow in order under the fresh keys
+`offset + 1 + i`, greater than every old key, so nothing is overwritten and all keys are
+distinct; each is the i-th atom shifted uniformly by residue number / charge group of the
+highest-key atom; interactions and bonds are those of `m` plus their renamed duplicates; the
+result satisfies the extended invariant and its log entries are intact. -/
+theorem self_merge_all_clauses (m : Mol) (h : m.InvE) (hl : m.LogOk) :
+    (m.merge m.copy).2 = .ok ∧
+    (m.merge m.copy).1.nodes.take m.nodes.length = m.nodes ∧
+    (m.merge m.copy).1.nodes.length = m.nodes.length + m.nodes.length ∧
+    (∀ i (hi : i < m.nodes.length), (m.merge m.copy).1.nodes[m.nodes.length + i]? =
+      some (m.offset + 1 + (i : Int), (m.nodes[i]).2.shift m.shiftBy.1 m.shiftBy.2)) ∧
+    (∀ k ∈ m.keys, ∀ i : Nat, k < m.offset + 1 + (i : Int)) ∧
+    (∀ p ∈ m.nodes, p ∈ (m.merge m.copy).1.nodes) ∧
+    (m.merge m.copy).1.keys.Nodup ∧
+    (m.merge m.copy).1.inters = m.inters ++ m.inters.map
+      (fun ti => (ti.1, { ti.2 with atoms := ti.2.atoms.map (corr m.keys m.offset) })) ∧
+    (∀ a b, (m.merge m.copy).1.hasEdge a b = true ↔
+      m.hasEdge a b = true ∨ ∃ e ∈ m.edges, e.1 ≠ e.2 ∧
+        ((a = corr m.keys m.offset e.1 ∧ b = corr m.keys m.offset e.2) ∨
+         (a = corr m.keys m.offset e.2 ∧ b = corr m.keys m.offset e.1))) ∧
+    (∀ c, c ∈ (m.merge m.copy).1.cites ↔ c ∈ m.cites) ∧
+    (m.merge m.copy).1.InvE ∧ (m.merge m.copy).1.LogOk := by
+  have hok := selfMerge_ok h hl
+  have hci : m.copy.Inv := copy_inv h.1
+  have hinve := merge_inve h ⟨hci, copy_ea h.2⟩
+  have hlog := merge_logOk h.1 hci hl (copy_logOk h.1 hl)
+  have hc := copy_eq h.1 h.2
+  rw [hc] at hok hci hinve hlog ⊢
+  have hfresh := merge_fresh m _ h.1 hci hok
+  have hnodes := merge_keeps_nodes m _ h.1 hci hok
+  refine ⟨hok, hnodes.1, hnodes.2.1, ?_, hfresh.1, hfresh.2.1, hfresh.2.2,
+    merge_keeps_interactions m _ h.1 hci hok, merge_keeps_edges m _ h.1 hci hok, ?_, hinve, hlog⟩
+  · intro i hi
+    exact (merge_shift_uniform m _ h.1 hci hok i hi).1
+  · intro c
+    rw [(merge_keeps_meta m _ h.1 hci hok).2.2 c]
+    exact ⟨fun hh => hh.elim id id, Or.inl⟩
 
-/-- on `exA` (3 atoms, 2 bonds, 2 interactions): RuntimeError, 4 atoms instead of 6, no new bond, no
-new interaction; a one-atom molecule without interactions IS duplicated correctly -/
-theorem self_merge_incomplete_witness :
-    exA.selfMerge.2 = .runtimeerror ∧ exA.selfMerge.1.keys = [1, 2, 5, 6] ∧
-    exA.selfMerge.1.edges = exA.edges ∧ exA.selfMerge.1.inters = exA.inters ∧
-    (lookupAttrs exA.selfMerge.1.nodes 6) = some { name := some "N", resid := some 7, cg := some 9 } ∧
-    (step [exA] (.merge 0 0)).2 = .runtimeerror ∧
-    (({ nodes := [(4, { name := some "X", resid := some 2 })], nrexcl := some 1 } : Mol).selfMerge).2 = .ok ∧
-    (({ nodes := [(4, { name := some "X", resid := some 2 })], nrexcl := some 1 } : Mol).selfMerge).1.nodes =
-      [(4, { name := some "X", resid := some 2 }), (5, { name := some "X", resid := some 4, cg := some 2 })] ∧
-    (({ nodes := [(4, {})], inters := [("bonds", { atoms := [4, 4], params := "p" }), ("angles", { atoms := [4], params := "q" })],
-        nrexcl := some 1 } : Mol).selfMerge).2 = .keyerror := by
-  decide
-
-/-- `MergeAllMolecules` on a system that lists its first molecule again: the operands before the
-repetition are merged normally, then the accumulated molecule is merged into itself
-(`mergeFoldS` = the fold with `Mol.selfMerge` at those positions) -/
+/-- the self-merge as a step of the state machine, and `MergeAllMolecules` on a system that lists
+its first molecule again (`mergeFoldS`; `operandOf acc none` = a snapshot of the accumulator): with
+members that satisfy the extended invariant and have intact log entries the fold keeps both and can
+only stop on a force-field / nrexcl mismatch between DIFFERENT members — the repeated member itself
+never fails -/
 theorem merge_all_self_step (st : State) (s i0 : Nat) (rest : List Nat) (m0 : Mol) (ms : List (Option Mol))
     (hs : st.systems[s]? = some (i0 :: rest)) (hrep : i0 ∈ rest)
     (hm : st.pool[i0]? = some m0) (hg : getMolsS st.pool i0 rest = some ms) :
@@ -419,25 +416,68 @@ theorem merge_all_self_step (st : State) (s i0 : Nat) (rest : List Nat) (m0 : Mo
       ({ st with pool := st.pool.set i0 (mergeFoldS m0 ms).1,
                  systems := if (mergeFoldS m0 ms).2 = .ok then st.systems.set s [i0] else st.systems },
        (mergeFoldS m0 ms).2) ∧
-    (m0.Inv → (∀ o, some o ∈ ms → o.Inv) → (mergeFoldS m0 ms).1.Inv) ∧
-    (∀ acc, mergeS acc none = acc.selfMerge) ∧ (∀ acc x, mergeS acc (some x) = acc.merge x) := by
+    (∀ acc o, mergeS acc o = acc.merge (operandOf acc o)) ∧
+    (∀ acc : Mol, acc.InvE → acc.LogOk → (mergeS acc none).2 = .ok) ∧
+    (m0.InvE → m0.LogOk → (∀ o, some o ∈ ms → o.InvE ∧ o.LogOk) →
+      (mergeFoldS m0 ms).1.InvE ∧ (mergeFoldS m0 ms).1.LogOk ∧
+      ((mergeFoldS m0 ms).2 = .ok ∨ (mergeFoldS m0 ms).2 = .valueerror)) ∧
+    (∀ i m, st.pool[i]? = some m → step st.pool (.merge i i) = (st.pool.set i (m.merge m.copy).1, (m.merge m.copy).2)) := by
   have : rest.contains i0 = true := by simpa using hrep
-  refine ⟨?_, fun h0 hms => mergeFoldS_inv ms h0 hms, fun _ => rfl, fun _ _ => rfl⟩
-  simp only [sstep, hs, this, hm, hg, ↓reduceIte]
+  refine ⟨?_, mergeS_eq, fun acc ha hl => selfMerge_ok ha hl, fun h0 hl hms => mergeFoldS_good ms h0 hl hms, ?_⟩
+  · simp only [sstep, hs, this, hm, hg, ↓reduceIte]
+  · intro i m hi
+    simp only [step, mergeOperand, hi, ↓reduceIte, Option.map_some, setAt]
 
-example : (sstep { exSys with systems := [[0, 1, 0]] } (.mergeAll 0)).2 = .runtimeerror := by decide
+example : (sstep { exSys with systems := [[0, 1, 0]] } (.mergeAll 0)).2 = .ok := by decide
 example : ((sstep { exSys with systems := [[0, 1, 0]] } (.mergeAll 0)).1.pool[0]?.map Mol.keys) =
-    some [1, 2, 5, 6, 7, 8, 9] := by decide
-example : (sstep { exSys with systems := [[3, 3, 0]] } (.mergeAll 0)).2 = .ok := by decide   -- the empty molecule
+    some [1, 2, 5, 6, 7, 8, 9, 10, 11, 12, 13, 14] := by decide
+example : (sstep { exSys with systems := [[0, 1, 0]] } (.mergeAll 0)).1.systems = [[0]] := by decide
+example : (step [exA] (.merge 0 0)).2 = .ok ∧ ((step [exA] (.merge 0 0)).1.map Mol.keys) = [[1, 2, 5, 6, 7, 8]] := by decide
+example : (exA.merge exA.copy).1.inters.map (fun ti => ti.2.atoms) = [[1, 2], [1, 2, 5], [6, 7], [6, 7, 8]] := by decide
+
+/-- the behaviour BEFORE the repair: the loops of `merge_molecule` iterated over the containers
+they were adding to.  No atom: normal path.  Two or more atoms: the first new atom is added, then
+`RuntimeError: OrderedDict mutated during iteration` (modelled as `.badindex` here: the outcome
+enumeration no longer has a RuntimeError).  One atom with interactions: the atom and the first
+interaction list are duplicated, then KeyError. -/
+def Mol.selfMergeOld (m : Mol) : Mol × Outcome :=
+  match m.nodes with
+  | [] => m.merge m
+  | [first] =>
+    match m.inters with
+    | [] => m.merge m
+    | (ty, _) :: _ =>
+      match m.mergeOffs with
+      | some (offset, roff, coff) =>
+        ({ m with nodes := upsert m.nodes (offset + 1) (first.2.shift roff coff),
+                  inters := m.inters ++ (m.inters.filter (fun ti => ti.1 == ty)).map
+                    (fun ti => (ti.1, { ti.2 with atoms := ti.2.atoms.map (fun _ => offset + 1) })),
+                  maxNode := some (offset + 1) }, .keyerror)
+      | none => (m, .keyerror)
+  | first :: _ :: _ =>
+    match m.mergeOffs with
+    | some (offset, roff, coff) =>
+      ({ m with nodes := upsert m.nodes (offset + 1) (first.2.shift roff coff), maxNode := none }, .badindex)
+    | none => (m, .keyerror)
+
+/-- why it was a finding: on `exA` (3 atoms, 2 bonds, 2 interactions) the old self-merge raised
+after adding 1 atom of 3, no bond, no interaction; the repaired one gives 6 atoms, 4 bonds, 4
+interactions (corpus/c12_ext.json, histories 3-5, are the same inputs and must now pass) -/
+theorem self_merge_old_incomplete_witness :
+    exA.selfMergeOld.2 ≠ .ok ∧ exA.selfMergeOld.1.keys = [1, 2, 5, 6] ∧
+    exA.selfMergeOld.1.edges = exA.edges ∧ exA.selfMergeOld.1.inters = exA.inters ∧
+    (exA.merge exA.copy).2 = .ok ∧ (exA.merge exA.copy).1.keys = [1, 2, 5, 6, 7, 8] ∧
+    (exA.merge exA.copy).1.edges.length = 4 ∧ (exA.merge exA.copy).1.inters.length = 4 := by
+  decide
 
 /-- the extended invariant in the system layer: every system-level operation (add_molecule with
-its force-field hand-over, System.copy, MergeAllMolecules incl. the self-merge, MergeChains, and
-the safe molecule operations) preserves `SInv` and `PoolInvE` -/
+its force-field hand-over, System.copy, MergeAllMolecules incl. a repeated member, MergeChains, and
+the molecule operations) preserves `SInv` and `PoolInvE` -/
 theorem sinve_step (st : State) (op : SOp) (h : SInv st) (he : PoolInvE st.pool)
-    (hsafe : ∀ op', op = .mol op' → op'.safe st.pool = true ∧ op'.blockOk = true) :
+    (hb : ∀ op', op = .mol op' → op'.blockOk = true) :
     SInv (sstep st op).1 ∧ PoolInvE (sstep st op).1.pool := by
-  have h1 := sstep_inv h op (fun op' e => (hsafe op' e).1)
-  exact ⟨h1, poolInvE_of h1.1 (sstep_ea he op (fun op' e => (hsafe op' e).2))⟩
+  have h1 := sstep_inv h op
+  exact ⟨h1, poolInvE_of h1.1 (sstep_ea he op hb)⟩
 
 /-! ## 7. Building a block with its own editing methods -/
 
